@@ -3,11 +3,12 @@
 //
 // input:  C <id> <D> <shapeA..> <nA> <valsA..> <shapeB..> <nB> <valsB..>
 // output: {"id":..,"res":[[ka,kb,"eq ne lt le gt ge (a?b) then (b?a) as 12 chars 0/1/x"],...]}
-// build variants: default element int / other element long;  -DVERIF_CMP_DOUBLE: element double / other float, where the
-// abstract value 2 stands for -0.0 (equal to 0 = +0.0) and 3 for a NaN (equal to nothing, itself included)
+// build variants: default element int / other element long;  -DVERIF_CMP_DOUBLE: element double / other int, where the
+// abstract value 2 stands for -0.0 (equal to 0 = +0.0), 3 for a NaN (equal to nothing, itself included) and 4 for 0.5
+// (operands holding 2, 3 or 4 have no int counterpart: the int-typed kinds are skipped for them)
 #ifdef VERIF_CMP_DOUBLE
 #define VERIF_ELEM double
-using other_t = float;
+using other_t = int;     // ordering across element types: double against int (a value that does not survive conversion decides)
 #else
 #define VERIF_ELEM int
 using other_t = long;
@@ -20,6 +21,7 @@ template<class X> X conv(long v) {
 #ifdef VERIF_CMP_DOUBLE
 	if(v == 2) { return static_cast<X>(-0.0); }
 	if(v == 3) { return std::numeric_limits<X>::quiet_NaN(); }
+	if(v == 4) { return static_cast<X>(0.5); }
 #endif
 	return static_cast<X>(v);
 }
@@ -29,8 +31,9 @@ template<class X> X conv(long v) {
 // kinds of operand
 // (padded sub-blocks exist for every shape, also without elements, and report their extents exactly;
 //  "_long": the other element type; "const_": a read-only view over a const pointer, as obtained from a const array)
-enum kind_t { K_ARRAY = 0, K_CONST = 1, K_REF = 2, K_ROTVIEW = 3, K_PADVIEW = 4, K_OTHER = 5, K_PADOTHER = 6, K_CPAD = 7, K_NKINDS = 8 };
-static char const* kind_name[] = {"array", "const_array", "array_ref", "rotated_view", "padded_subblock", "array_of_long", "padded_subblock_long", "const_padded_subblock"};
+//  "midswap": for D >= 3 a view whose dimensions 1 and 2 are exchanged in memory and whose hull has no gaps)
+enum kind_t { K_ARRAY = 0, K_CONST = 1, K_REF = 2, K_ROTVIEW = 3, K_PADVIEW = 4, K_OTHER = 5, K_PADOTHER = 6, K_CPAD = 7, K_MIDSWAP = 8, K_NKINDS = 9 };
+static char const* kind_name[] = {"array", "const_array", "array_ref", "rotated_view", "padded_subblock", "array_of_long", "padded_subblock_long", "const_padded_subblock", "midswap_view"};
 
 template<int D, std::size_t... K> auto exts(std::vector<long> const& sh, std::index_sequence<K...> /*u*/) { return multi::extensions_t<D>{multi::iextension(0, sh[K])...}; }
 template<int D> auto exts(std::vector<long> const& sh) { return exts<D>(sh, std::make_index_sequence<D>{}); }
@@ -53,8 +56,11 @@ template<int D> struct operand {
 	std::unique_ptr<view_t<D>> pad;
 	multi::array<other_t, D> other;        // K_OTHER
 	multi::array<other_t, D> pad_other_backing;   // K_PADOTHER
+	multi::array<E, D> mid_backing;   // K_MIDSWAP
+	std::unique_ptr<view_t<D>> mid;
 	bool views_ok = false;   // rotated view (needs elements)
 	bool pad_ok = false;
+	bool other_ok = true;    // the values are representable in the other element type
 
 	// the sub-block [1, 1+s) in every dimension of an array padded by one on every side
 	template<class A> static auto block_of(A& backing, std::vector<long> const& shape) {
@@ -96,7 +102,16 @@ template<int D> struct operand {
 			else { rot = std::make_unique<view_t<D>>(norm(rot_backing.strided(2))); }
 			k = 0; fill_view(*rot, vals, k);
 			views_ok = true;
+			if constexpr(D >= 3) {
+				std::vector<long> msh(shape); std::swap(msh[1], msh[2]);
+				mid_backing = multi::array<E, D>(exts<D>(msh), conv<E>(-7));
+				mid = std::make_unique<view_t<D>>(norm(mid_backing.rotated().transposed().unrotated()));
+				k = 0; fill_view(*mid, vals, k);
+			}
 		}
+#ifdef VERIF_CMP_DOUBLE
+		for(auto v : vals) { if(v >= 2) { other_ok = false; } }
+#endif
 	}
 };
 
@@ -138,6 +153,7 @@ template<int D, class F> void with_kind(operand<D>& o, int k, F&& f) {
 		case K_PADVIEW: f(*o.pad); break;
 		case K_OTHER: f(o.other); break;
 		case K_PADOTHER: { auto&& v = operand<D>::block_of(o.pad_other_backing, o.shape); f(v); } break;
+		case K_MIDSWAP: if constexpr(D >= 3) { f(*o.mid); } break;
 		case K_CPAD: { auto&& v = operand<D>::block_of(std::as_const(o.pad_backing), o.shape); f(v); } break;
 		default: break;
 	}
@@ -149,8 +165,10 @@ template<int D> void run_pair(long id, std::vector<long> const& sa, std::vector<
 	operand<D> A(sa, va), Bo(sb, vb);
 	bool first = true;
 	for(auto [ka, kb] : combos) {
-		if(ka == K_ROTVIEW && !A.views_ok) { continue; }
-		if(kb == K_ROTVIEW && !Bo.views_ok) { continue; }
+		if((ka == K_ROTVIEW || ka == K_MIDSWAP) && (!A.views_ok || (ka == K_MIDSWAP && D < 3))) { continue; }
+		if((kb == K_ROTVIEW || kb == K_MIDSWAP) && (!Bo.views_ok || (kb == K_MIDSWAP && D < 3))) { continue; }
+		if((ka == K_OTHER || ka == K_PADOTHER) && !A.other_ok) { continue; }
+		if((kb == K_OTHER || kb == K_PADOTHER) && !Bo.other_ok) { continue; }
 		std::string ab, ba;
 		with_kind<D>(A, ka, [&](auto const& x) {
 			with_kind<D>(Bo, kb, [&](auto const& y) {
@@ -160,6 +178,18 @@ template<int D> void run_pair(long id, std::vector<long> const& sa, std::vector<
 		});
 		os << (first ? "" : ",") << "[\"" << kind_name[ka] << "\",\"" << kind_name[kb] << "\",\"" << ab << ba << "\"]";
 		first = false;
+	}
+	// D = 1: a as row 0 and b as column 0 of ONE square matrix (two views with the same first element, the same extension
+	// and different strides), when their first elements agree
+	if constexpr(D == 1) {
+		if(!va.empty() && va.size() == vb.size() && va[0] == vb[0]) {
+			long const n = static_cast<long>(va.size());
+			multi::array<E, 2> M({n, n}, conv<E>(-9));
+			for(long j = 0; j != n; ++j) { M[0][j] = conv<E>(va[static_cast<std::size_t>(j)]); M[j][0] = conv<E>(vb[static_cast<std::size_t>(j)]); }
+			std::string ab, ba;
+			bool fin = guard::run([&] { auto&& r = M[0]; auto&& c = M.rotated()[0]; ab = six(r, c); ba = six(c, r); });
+			if(fin) { os << (first ? "" : ",") << "[\"row_of_matrix\",\"column_of_same_matrix\",\"" << ab << ba << "\"]"; first = false; }
+		}
 	}
 	// aliasing operands: when b's logical contents are those of a dimension-permuting view of a's own
 	// storage, compare a with that view (same base pointer, same storage, different strides)
@@ -211,7 +241,10 @@ int main(int argc, char** argv) {
 	// kind combinations: all pairs by default; "lean" = a representative subset
 	std::vector<std::pair<int, int>> combos;
 	bool lean = argc > 1 && std::string(argv[1]) == "lean";
+	bool midonly = argc > 1 && std::string(argv[1]) == "mid";   // only the combinations involving the middle-swapped view
 	for(int i = 0; i != K_NKINDS; ++i) { for(int j = 0; j != K_NKINDS; ++j) {
+		if(midonly && !((i == K_MIDSWAP && (j == K_MIDSWAP || j == K_ARRAY || j == K_PADVIEW)) || (j == K_MIDSWAP && (i == K_ARRAY || i == K_PADVIEW)))) { continue; }
+		if(!midonly && (i == K_MIDSWAP || j == K_MIDSWAP) && !(i == j || i == K_ARRAY || j == K_ARRAY)) { continue; }
 		if(lean && !(i == j || i == K_ARRAY || j == K_ARRAY || (i == K_ROTVIEW && j == K_PADVIEW) || (i == K_PADVIEW && j == K_PADOTHER) || (i == K_CPAD && j == K_PADVIEW))) { continue; }
 		combos.emplace_back(i, j);
 	} }
